@@ -358,7 +358,17 @@ class SemLifter:
         saved = (self.__dict__.get("_rest_memo"), self.__dict__.get("_rest_objs"), self.__dict__.get("_alt_objs"))
         self._rest_memo, self._rest_objs, self._alt_objs = {}, {}, {}
         try:
-            t = canon(self.lift_tree(tree, "ENTRY", entry, where))
+            try:
+                self._prefer_infallible = False
+                t = canon(self.lift_tree(tree, "ENTRY", entry, where))
+            except Unliftable:
+                # second reading: a later alternative that cannot fail ends its choice (`(x | [y])` written without a helper)
+                self._rest_memo, self._rest_objs, self._alt_objs = {}, {}, {}
+                self._prefer_infallible = True
+                try:
+                    t = canon(self.lift_tree(tree, "ENTRY", entry, where))
+                finally:
+                    self._prefer_infallible = False
             # what the plumbing lifter needs of this unit
             self.__dict__.setdefault("units", {})[(path, entry)] = {"sm": sm, "tree": tree, "rest_objs": self._rest_objs, "entry": entry,
                                                                     "mode": self.__dict__.get("_modes", {}).get(id(tree))}
@@ -532,10 +542,16 @@ class SemLifter:
     def _alt_rest(self, node, st, S, entry, where, start):
         last_ex = None
         any_prefix = False
+        infallible_fallback = None
         for (terms, okn, oks, fails, pobjs) in self.prefixes(node, st, S, entry, where, first=("opt",)):
             any_prefix = True
             try:
                 K = self.rest(okn, oks, S, entry, where)
+                if not fails and terms and st != start and isinstance(st, tuple) and st and st[0] == "rec" and self.__dict__.get("_prefer_infallible"):
+                    # a later alternative that cannot fail (an optional group, a closure): it ends the choice, which then never fails.
+                    # Only in the second reading of a unit (see _lift_fn): used when no reading with a failure exit exists.
+                    self.__dict__.setdefault("_alt_objs", {})[("alt", id(node), st, S, start)] = [(pobjs, canon(("seq", tuple(terms))))]
+                    return [canon(("seq", tuple(terms)))], K, okn, oks, None
                 tails = None
                 for (n, e) in fails:
                     alts_m, K_m, _, _, fin_m = self.alt_rest(n, ("rec", st, e), S, entry, where, start)
@@ -578,6 +594,10 @@ class SemLifter:
                     return [("empty",)], K0, node, st, None
             # no alternative left: the choice as a whole fails with the farthest recorded failure
             return [], None, None, None, (node, ("farthest", st))
+        if infallible_fallback is not None:
+            pobjs, term, K, okn, oks = infallible_fallback
+            self.__dict__.setdefault("_alt_objs", {})[("alt", id(node), st, S, start)] = [(pobjs, term)]
+            return [term], K, okn, oks, None
         raise last_ex or Unliftable(where, "unrecognised alternative")
 
     def _maybe_nested(self, res, st, S, entry, where, start):
